@@ -32,13 +32,13 @@ POS = {
     "tuple_field": 'let v@N@ = {f = @E@}.f;',
     "list_elem": 'let v@N@ = [@E@].0;',
     "call_arg": 'let v@N@ = idf(@E@);',
-    "func_body": 'let f@N@ = func (x) => @E@;\nlet v@N@ = f@N@(1);',
-    "map_cb": 'let v@N@ = map(func (x) => @E@, [1]).0;',
+    "func_body": 'let f@N@ = func (x) => @E@;\nlet u@N@ = f@N@(0);\nlet v@N@ = f@N@(1);',
+    "map_cb": 'let v@N@ = map(func (x) => @E@, [1, 2, 3]).2;',
     "filter_cb": 'let w@N@ = filter(func (x) => @E@ == "@X@", ["hit"]);\nlet v@N@ = reduce(func (acc, x) => acc + x, "filtered:", w@N@);',
     "reduce_cb": 'let v@N@ = reduce(func (acc, x) => acc + @E@, "", [1]);',
     "reduce_acc": 'let v@N@ = reduce(func (acc, x) => acc + x, @E@, [""]);',
     "map_target": 'let v@N@ = map(idf, [@E@]).0;',
-    "named_cb": 'let g@N@ = func (x) => @E@;\nlet v@N@ = map(g@N@, [1]).0;',
+    "named_cb": 'let g@N@ = func (x) => @E@;\nlet v@N@ = map(g@N@, [1, 2]).1;',
     "deep_cb": 'let f@N@ = func (x) => map(func (y) => @E@, [x]).0;\nlet v@N@ = f@N@(1);',
     "module_body": 'let m@N@ = module {a = 1} => { let r = @E@; };\nlet v@N@ = m@N@{}.r;',
     "module_out_binding": 'let m@N@ = module {a = 1} => (r) { let r = @E@; };\nlet v@N@ = m@N@{};',
@@ -62,7 +62,7 @@ INCLUDE_VIA_IDF = {"binary_rhs", "reduce_cb", "filter_cb", "not", "in", "reduce_
 SPELL = ["plain", "dot", "dotdot", "redundant", "updown", "abs"]
 FORMS = ["let", "expr", "called_func"]
 PROBES = ["pos_" + p for p in ALL_POS] + ["fail_msg_site", "decoy_value_distinguishable", "three_spelling_same_file", "diamond",
-                                         "back_edge_let", "back_edge_expr", "back_edge_called_func", "cycle_len_1", "cycle_len_2", "cycle_len_3",
+                                         "back_edge_let", "back_edge_expr", "back_edge_called_func", "back_edge_at_position", "back_edge_in_module", "back_edge_in_callback", "cycle_len_1", "cycle_len_2", "cycle_len_3",
                                          "back_edge_respelled", "include_site", "lib_level_site", "fault_with_decoy"]
 DECOY_CWD = "decoy/d1/d2/d3"
 DIRSETS = [["", "lib"], ["", "lib", "lib/deep"], ["app", "lib"], ["app", "lib", "shared/x"], ["", "a", "a/b", "a/b/c"], ["app/svc", "lib", ""]]
@@ -148,7 +148,10 @@ def generate(rng, tier, idx):
         # back edge to the file itself or to an ancestor
         anc = sorted(ancestors(world, frm) | {frm})
         to = rng.choice(anc)
-        world["back_edge"] = {"from": frm, "to": to, "form": rng.choice(FORMS), "spelling": pick_spell()}
+        # the back edge is a bare let-import (the only form the static checker follows), one of the two hand-picked forms, or an import at
+        # any of the syntactic positions (module bodies, callbacks, select arms, ...)
+        form = rng.weighted([("let", 3), ("expr", 1), ("called_func", 1), ("pos:" + rng.choice(sorted(POS)), 7)])
+        world["back_edge"] = {"from": frm, "to": to, "form": form, "spelling": pick_spell()}
     elif mode == "fault":
         j = rng.between(1, n - 1)
         world["fault"] = {"target": j, "kind": rng.choice(FAULT_KINDS)}
@@ -298,8 +301,11 @@ def render_file(world, i, proj_abs, ids, target_value):
             L.append('let back = import "%s";' % p)
         elif be["form"] == "expr":
             L.append('let back = (import "%s").id;' % p)
-        else:
+        elif be["form"] == "called_func":
             L.append('let backf = func (x) => (import "%s").id;\nlet back = backf(1);' % p)
+        else:
+            pos = be["form"].split(":", 1)[1]
+            L.append(POS[pos].replace("@E@", '(import "%s").id' % p).replace("@N@", "back").replace("@X@", "zz"))
     if vs:
         # values pass through the identity function so that the static checker's opinion about them (C07's business) stays out of the way
         L.append('let id = "%s[" + %s + "]";' % (f["uid"], ' + "," + '.join("idf(%s)" % v for v in vs)))
@@ -438,7 +444,11 @@ def execute(world, sb, res):
     be = world["back_edge"]
     cyc_len = None
     if be:
-        res.probe("back_edge_" + be["form"])
+        res.probe("back_edge_" + (be["form"] if ":" not in be["form"] else "at_position"))
+        if be["form"] in ("pos:module_body", "pos:module_cb", "pos:module_out_expr", "pos:module_out_binding", "pos:module_param"):
+            res.probe("back_edge_in_module")
+        if be["form"] in ("pos:map_cb", "pos:filter_cb", "pos:reduce_cb", "pos:named_cb", "pos:deep_cb"):
+            res.probe("back_edge_in_callback")
         cyc_len = cycle_length(world)
         if cyc_len and cyc_len <= 3:
             res.probe("cycle_len_%d" % cyc_len)
